@@ -110,6 +110,15 @@ fn values() -> Vec<(i64, u64, i32)> {
         (d(1900, 2, 28), 86_399_999_999_999, 43_200),
         (d(5_879_610, 3, 3), 1_000_000_000, 0),
         (d(-5_879_610, 4, 4), 2_000_000_000, 0),
+        // local time exactly midnight / one nanosecond before it, reached through an offset
+        (d(2022, 5, 3), 5 * 3_600_000_000_000, -18_000),
+        (d(2022, 5, 2), 86_400_000_000_000 - 7_200_000_000_000, 7_200),
+        (d(2000, 1, 1), 3_661_000_000_000, -3_661),
+        (d(-1, 12, 31), 86_400_000_000_000 - 1_000_000_000, 1),
+        (d(1, 1, 1), 0, -1),
+        (d(2024, 2, 29), 28_378_000_000_000 - 1, -28_378),
+        (d(2024, 3, 1), 43_200_000_000_000, -43_200),
+        (d(2024, 12, 31), 43_200_000_000_000, 43_200),
     ]
 }
 
@@ -172,7 +181,7 @@ pub fn run(ctx: &Ctx) -> i32 {
         let np = pieces.len() as u64;
         let depth3 = true;
         let total = if depth3 { np * np * np } else { np * np };
-        rep.sweep(&format!("composite patterns ({}): every sequence of <= {} pieces from {} pieces x 20 values", ["Date", "Time", "DateTime"][kind as usize], if depth3 { 3 } else { 2 }, np), total * nv, "adjacent equal letters merge into one run (part of the reference tokenizer)", |i, acc| {
+        rep.sweep(&format!("composite patterns ({}): every sequence of <= {} pieces from {} pieces x 28 values", ["Date", "Time", "DateTime"][kind as usize], if depth3 { 3 } else { 2 }, np), total * nv, "adjacent equal letters merge into one run (part of the reference tokenizer)", |i, acc| {
             let (d, n, o) = vals[(i % nv) as usize];
             let mut k = i / nv;
             let mut pat = String::new();
